@@ -69,8 +69,9 @@ def load_findings():
         return []
 
 
-SAN_RE = re.compile(rb'(?:ERROR: AddressSanitizer: ([\w-]+)|(/repo/[^\s:]+):(\d+):\d+: runtime error: ([^\n]{0,80})|AddressSanitizer:DEADLYSIGNAL)')
-FRAME_RE = re.compile(rb'#\d+ 0x[0-9a-f]+ in ([^\n]+?) (/repo/[^\s:]+):\d+')
+_RP = re.escape(REPO.encode())
+SAN_RE = re.compile(rb'(?:ERROR: AddressSanitizer: ([\w-]+)|(' + _RP + rb'/[^\s:]+):(\d+):\d+: runtime error: ([^\n]{0,80})|AddressSanitizer:DEADLYSIGNAL)')
+FRAME_RE = re.compile(rb'#\d+ 0x[0-9a-f]+ in ([^\n]+?) (' + _RP + rb'/[^\s:]+):\d+')
 
 
 def _fn(sig):
